@@ -1580,7 +1580,7 @@ class ACCParallelTrans(ParallelRegionTrans):
     '''
     excluded_node_types = (CodeBlock, Return, PSyDataNode,
                            ACCDataDirective, ACCEnterDataDirective,
-                           psyGen.HaloExchange)
+                           ACCRoutineDirective, psyGen.HaloExchange)
 
     def __init__(self, default_present=True):
         super().__init__()
@@ -2625,7 +2625,8 @@ class ACCDataTrans(RegionTrans):
     >>> dtrans.apply(kernels)
 
     '''
-    excluded_node_types = (CodeBlock, Return, PSyDataNode)
+    excluded_node_types = (CodeBlock, Return, PSyDataNode,
+                           ACCRoutineDirective)
 
     @property
     def name(self):
